@@ -269,6 +269,13 @@ inductive Err | XPST0051 | XPST0003 | XPDY0050
 
 abbrev Res := Except Err Bool
 
+instance : DecidableEq Res := fun a b =>
+  match a, b with
+  | .ok x, .ok y => if h : x = y then isTrue (by rw [h]) else isFalse (fun e => h (by cases e; rfl))
+  | .error x, .error y => if h : x = y then isTrue (by rw [h]) else isFalse (fun e => h (by cases e; rfl))
+  | .ok _, .error _ => isFalse (fun e => by cases e)
+  | .error _, .ok _ => isFalse (fun e => by cases e)
+
 /-- Python `all(f(x) for x in xs)`: left to right, stops at the first `False`, exceptions propagate -/
 def allE {α : Type} (f : α → Res) : List α → Res
   | [] => .ok true
@@ -314,7 +321,8 @@ def matchLeafNode (k : Kind) (name : Nat) (kids : List Nat) : Leaf → Bool
   | .kind k' nt =>
     if k' != k then false else                              -- l.331 startswith(node_kind)
     match k, nt with
-    | .document, _ => true                                  -- l.335-338 (the AST has no document-node(x) with a name)
+    | .document, .none => true                              -- l.335-338 element_test == ''
+    | .document, _ => false                                 -- (no such text: document-node(E) is `docElem`)
     | .namespace, .none => true                             -- fix: namespace-node()
     | .namespace, _ => false
     | .pi, .none => true                                    -- l.333
@@ -475,8 +483,24 @@ def instanceOf (tb : Tables) (xsd11 : Bool) (t : Ty) (v : List Item) : Res :=
   | .empty => .ok v.isEmpty
   | t => instLoop t.tokOcc (instItem tb xsd11 t) 0 v
 
-/-- `v treat as T`: `.ok true` = returns the operand unchanged, `.ok false` = raises XPDY0050 -/
-def treatAs (tb : Tables) (xsd11 : Bool) (t : Ty) (v : List Item) : Res := instanceOf tb xsd11 t v
+/-- the loops of `evaluate__treat_expression` (l.284-300 / 312-325): items are appended to `castable_expr`
+(`acc`) one by one; XPDY0050 where `instance of` would answer false -/
+def treatLoop (occ : Occ) (f : Item → Res) : Nat → List Item → List Item → Except Err (List Item)
+  | pos, [], acc =>
+    if pos == 0 && !(occ == .star || occ == .opt) then .error .XPDY0050 else .ok acc
+  | pos, x :: xs, acc =>
+    match f x with
+    | .error e => .error e
+    | .ok false => .error .XPDY0050
+    | .ok true =>
+      if pos != 0 && (occ == .one || occ == .opt) then .error .XPDY0050
+      else treatLoop occ f (pos + 1) xs (acc ++ [x])
+
+/-- `v treat as T`: the returned sequence, or the error -/
+def treatAs (tb : Tables) (xsd11 : Bool) (t : Ty) (v : List Item) : Except Err (List Item) :=
+  match t with
+  | .empty => if v.isEmpty then .ok [] else .error .XPDY0050
+  | t => treatLoop t.tokOcc (instItem tb xsd11 t) 0 v []
 
 /-! ## decidable regions: where the AST reading and the string-driven code agree by construction,
 the domain of the specification, and the trigger predicates of the known findings -/
